@@ -361,6 +361,12 @@ def rule_upd(repo, tier):
     ci = repo.cls(LT, 'Parameter')
     m = repo.find_method(ci, 'add_')
     okm = m is not None and m.cls.name == 'LieTensor'
+    # an external tensor class ahead of LieTensor in the MRO defines add_ itself and would win the lookup
+    for c in repo.mro(ci)[1:]:
+        if isinstance(c, ClassInfo) and c.name == 'LieTensor':
+            break
+        if isinstance(c, str) and c.split('.')[-1] in ('Parameter', 'Tensor'):
+            okm = False
     res.inst({'class': ci.fq, 'add__resolves_to': m.fq if m else None}, ci.fq)
     if not okm:
         res.add(Finding('C07.UPD', (ci.module.relpath, ci.node.lineno, ci.fq), 'Parameter.add_ does not resolve to LieTensor.add_ (base order %s): '
